@@ -19,7 +19,10 @@ expression         ["T", ts]                  a class / type hint passed as pred
 chain element      ["a", name]  .name   | ["i", e]  [e]   | ["t", [e...], gen]  [e1, e2] / [(generator)]
                    | ["g", pos, e]  .generic_arg(pos, e)
 """
+import functools
+import operator
 import re
+import types
 import typing
 from abc import ABC, abstractmethod
 from functools import lru_cache
@@ -57,7 +60,7 @@ def lst(x):
 # same roles for the per-case generated worlds).  World.self_check() verifies it against Python's issubclass.
 CLASS_KIND = {
     "A": "concrete", "B": "concrete", "SubA": "concrete", "Impl": "concrete", "ProtoImpl": "concrete",
-    "ProtoSub": "concrete", "Root": "concrete",
+    "ProtoSub": "concrete", "Root": "concrete", "ImplSub": "concrete", "ProtoSubSub": "concrete",
     "Abs": "abstract", "AbsSub": "abstract", "Proto": "protocol",
     "int": "concrete", "str": "concrete", "bool": "concrete", "NoneType": "concrete",
     "list": "generic", "List": "generic", "dict": "generic", "Dict": "generic",
@@ -66,6 +69,7 @@ SUPERS = {  # reflexive + transitive, restricted to the universe
     "A": {"A"}, "B": {"B"}, "SubA": {"SubA", "A"}, "Abs": {"Abs"}, "AbsSub": {"AbsSub", "Abs"},
     "Impl": {"Impl", "Abs"}, "Proto": {"Proto"}, "ProtoImpl": {"ProtoImpl", "Proto"},
     "ProtoSub": {"ProtoSub", "Proto"}, "Root": {"Root"},
+    "ImplSub": {"ImplSub", "Impl", "Abs"}, "ProtoSubSub": {"ProtoSubSub", "ProtoSub", "Proto"},
     "int": {"int"}, "bool": {"bool", "int"}, "str": {"str"}, "NoneType": {"NoneType"},
     "list": {"list"}, "dict": {"dict"},
 }
@@ -114,6 +118,14 @@ class ProtoImpl:  # structural implementation
 class ProtoSub(Proto):  # explicit implementation
     def pm(self):
         return 2
+
+
+class ImplSub(Impl):  # a concrete subclass of a CONCRETE class whose metaclass is ABCMeta: rule 1 applies to Impl, not rule 2
+    pass
+
+
+class ProtoSubSub(ProtoSub):  # likewise below an explicit protocol implementation
+    pass
 
 
 class Root:  # the role of the root model in end-to-end worlds (so that localised e2e cases replay here)
@@ -170,6 +182,10 @@ class World:
                 r = typing.Optional[args[0]]
             elif head == "Union":
                 r = typing.Union[tuple(args)]
+            elif head == "OptBar":      # PEP 604 spelling: a types.UnionType object, not a typing.Union
+                r = args[0] | None
+            elif head == "Bar":
+                r = functools.reduce(operator.or_, args)
             else:
                 raise ValueError(ts)
         self._real[key] = r
@@ -219,11 +235,12 @@ class World:
             return ["dict", self.pure_type(args[0]), self.pure_type(args[1])]
         if origin is tuple:
             return ["Tuple", *[self.pure_type(a) for a in args]]
-        if origin is typing.Union:
+        if origin is typing.Union or origin is types.UnionType:
+            bar = origin is types.UnionType
             members = [self.pure_type(a) for a in args]
             if len(members) == 2 and "NoneType" in members:  # noqa: PLR2004
-                return ["Opt", next(m for m in members if m != "NoneType")]
-            return ["Union", *members]
+                return ["OptBar" if bar else "Opt", next(m for m in members if m != "NoneType")]
+            return ["Bar" if bar else "Union", *members]
         raise env.HarnessError(f"C10: cannot express captured type {tp!r} as pure data")
 
     def pure_loc(self, loc):
@@ -238,7 +255,7 @@ class World:
 
 
 W0 = World({"A": A, "B": B, "SubA": SubA, "Abs": Abs, "AbsSub": AbsSub, "Impl": Impl, "Proto": Proto,
-            "ProtoImpl": ProtoImpl, "ProtoSub": ProtoSub, "Root": Root})
+            "ProtoImpl": ProtoImpl, "ProtoSub": ProtoSub, "Root": Root, "ImplSub": ImplSub, "ProtoSubSub": ProtoSubSub})
 W0.self_check()
 
 
@@ -256,9 +273,9 @@ def canon(ts):
         return ("dict", canon(args[0]), canon(args[1]))
     if head == "Tuple":
         return ("tuple", *[canon(a) for a in args])
-    if head == "Opt":
+    if head in ("Opt", "OptBar"):
         return ("Union", frozenset({canon(args[0]), "NoneType"}))
-    if head == "Union":
+    if head in ("Union", "Bar"):
         return ("Union", frozenset(canon(a) for a in args))
     raise ValueError(ts)
 
@@ -577,6 +594,8 @@ def show(e) -> str:  # noqa: C901, PLR0911
 def ts_show(ts) -> str:
     if isinstance(ts, str):
         return ts
+    if ts[0] in ("OptBar", "Bar"):
+        return "(" + " | ".join([*[ts_show(a) for a in ts[1:]], *(["None"] if ts[0] == "OptBar" else [])]) + ")"
     head = {"Opt": "Optional", "Tuple": "Tuple", "Union": "Union"}.get(ts[0], ts[0])
     return f"{head}[{', '.join(ts_show(a) for a in ts[1:])}]"
 
@@ -846,6 +865,8 @@ def model_fields(models, role):
 def _ts_src(ts, names):
     if isinstance(ts, str):
         return names.get(ts, {"NoneType": "type(None)"}.get(ts, ts))
+    if ts[0] in ("OptBar", "Bar"):
+        return "(" + " | ".join([*[_ts_src(a, names) for a in ts[1:]], *(["None"] if ts[0] == "OptBar" else [])]) + ")"
     head = {"Opt": "Optional", "Tuple": "Tuple", "Union": "Union", "List": "List", "Dict": "Dict"}.get(ts[0], ts[0])
     return f"{head}[{', '.join(_ts_src(a, names) for a in ts[1:])}]"
 
@@ -915,7 +936,7 @@ def make_data(ts, models, counter, keep):
     elif ts[0] in ("List", "list"):
         k = 2 if next(counter) < 60 else 1  # noqa: PLR2004
         v = [make_data(ts[1], models, counter, keep) for _ in range(k)]
-    elif ts[0] == "Opt":
+    elif ts[0] in ("Opt", "OptBar"):
         v = None if next(counter) % 4 == 3 else make_data(ts[1], models, counter, keep)
     elif ts[0] in ("Dict", "dict"):
         v = {"".join(["k", str(next(counter))]): make_data(ts[2], models, counter, keep)}
@@ -941,7 +962,7 @@ def predict_stacks(models, mode):
                     walk(fts, [*stack, [fk, fts, fid]])
             return
         head = ts[0]
-        if head in ("List", "list", "Opt"):
+        if head in ("List", "list", "Opt", "OptBar"):
             walk(ts[1], [*stack, ["GP", ts[1], 0]])
         elif head in ("Dict", "dict"):
             walk(ts[1], [*stack, ["GP", ts[1], 0]])
